@@ -494,6 +494,10 @@ class FilterAnalyzer(desc.ResetMixin):
                                      lb=lb, ub=ub,
                                      n_iterations=self._boxcar_iterations)
 
+        # Make sure to preserve the DC (as the other filtering methods do):
+        data_out = (data_out - np.mean(data_out, -1)[..., np.newaxis] +
+                    np.mean(self.data, -1)[..., np.newaxis])
+
         return ts.TimeSeries(data=data_out,
                              sampling_rate=self.sampling_rate,
                              time_unit=self.time_unit,
